@@ -236,6 +236,12 @@ let handle (toks : String.t list) : String.t =
     (match dec_stack (nat_of_int 200) { s_bits = bits; s_refs = refs } with
      | Err e -> "err " ^ err_name e
      | Ok vs -> "ok " ^ String.concat " " (List.map show_vm vs))
+  | "order_cost" :: rest ->
+    let (ns, _) = parse_dag rest in
+    (match build_dag ns with
+     | Err e -> "err " ^ err_name e
+     | Ok ks -> let k = ks.(Array.length ks - 1) in
+       Printf.sprintf "ok cells=%d visits=%d" (List.length (order k)) (int_of_nat (order_visits k)))
   | "senc" :: rest ->
     let (ns, ops) = parse_dag rest in
     let trees = tree_of_dag ns in
